@@ -101,7 +101,7 @@ pub fn decorate(ch: &mut Choices, ag: &mut AG, kind: YKind) {
     if ch.chance(1, 3) {
         for t in 0..nt {
             if ch.chance(1, 3) {
-                let v = ch.choose(&["plus", "an \"id\"", "it's", "é 漢", "{x}"]).to_string();
+                let v = ch.choose(&["plus", "an \"id\"", "it's", "é 漢", "{x}", ""]).to_string();
                 ag.epp.push((t, v));
             }
         }
@@ -135,7 +135,7 @@ pub fn decorate(ch: &mut Choices, ag: &mut AG, kind: YKind) {
         ag.implicit_tokens = v;
     }
     // actions / action types
-    let acts = ["$1", "vec![]", "{ let x = 1; x }", "é + 漢", "f(a,\n   b)", "Ok(())", "a::b()"];
+    let acts = ["$1", "vec![]", "{ let x = 1; x }", "é + 漢", "f(a,\n   b)", "Ok(())", "a::b()", ""];
     match kind {
         YKind::UserAction | YKind::Grmtools => {
             for r in 0..nr {
